@@ -52,6 +52,9 @@ class Gen:
 
     # ------------------------------------------------------------------
     def new_fid(self, frec):
+        for fid, old in self.flib.items():
+            if old == frec:        # identical records render to identical text
+                return fid
         self.nf += 1
         fid = "F%d" % self.nf
         self.flib[fid] = frec
@@ -378,7 +381,7 @@ class Gen:
         return {"op": "del_cells", "s": list(p), "c": c, "via": self.rng.choice(["attr", "item"])}
 
     # ------------------------------------------------------------------
-    def update(self, op, res):
+    def update(self, op, res, ev=None):
         """Bookkeeping after an operation was accepted by the implementation."""
         if res != "ok":
             return
